@@ -36,7 +36,7 @@ Run(t, i, g, prev) ==
            ELSE IF ~(0 <= e.s /\ e.s <= e.e /\ e.e <= t.len) THEN [ok |-> FALSE, g |-> g2, at |-> i, why |-> "mark range"]
            ELSE IF ~(prev <= e.s) THEN [ok |-> FALSE, g |-> g2, at |-> i, why |-> "marks move backwards"]
            ELSE IF ~(PosOk(t, e.s, e.sl, e.sc) /\ PosOk(t, e.e, e.el, e.ec)) THEN [ok |-> FALSE, g |-> g2, at |-> i, why |-> "line/column"]
-           ELSE Run(t, i + 1, g2, e.s)
+           ELSE Run(t, i + 1, g2, IF e.e > prev THEN e.e ELSE prev)   \* "marks never move backwards": no event starts before an earlier one ended
 
 Judge(t) ==
   LET r == Run(t, 1, G!MonInit, 0) IN
